@@ -19,6 +19,11 @@ func checkC19(c *Ctx, r *Report) {
 	r.floor("R19.2", 2)
 	r.floor("R19.3", 2)
 	r.floor("R19.4", 6)
+	// R19.7: what the after-read hook is shown is what the transport produced: the connection the
+	// client reads from is the dialer's own result, not a wrapper whose Read may report differently
+	// (C08 R8.7)
+	connectStores(c, r, "R19.7")
+	r.floor("R19.7", 1)
 	for _, spec := range []struct {
 		name   string
 		serial bool
